@@ -1,7 +1,12 @@
 //go:build verif
 
-// Stand-alone witness on the real code: the schedule that defeats the full
-// (interleaved learner calls) form of C07_reaches_target.  All inputs are
+// Stand-alone witnesses on the real code for finding F23 (repaired in /repo
+// 7d16f07: on that tree both log "not reproduced"; the same schedules are
+// always-generated corpus cases of the C03 and C07 checks, syncfx.RunStraddle)
+// and for the still open lost update on the shim's head (TestShimRaceWitness).
+//
+// F23: the schedule that defeated the full (interleaved learner calls) form of
+// C07_reaches_target on /repo dd38a4c.  All inputs are
 // honest: true chain headers only, no getter error, every range request served
 // in full.  No goroutine is stopped at an unusual place: four Head() calls are
 // slow between receiving their network head and using it, and one range
@@ -25,8 +30,8 @@
 //  head 22, but Syncer.Head() = State().Height = 21 (Syncer.Head() was 22
 //  before that sync), and State().Finished() stays false (ToHeight 22) until
 //  some later head happens to arrive.
-// Model: the same schedule as events of Model/Syncer.v ends in the same state
-// (Props/C07.v C07_interleaved_counterexample).
+// Model: Props/C07.v C07_straddling_range_example / C07_straddling_answer_example
+// (the same schedules as events of Model/Syncer.v; since 7d16f07 they end reached).
 //   go test -tags verif -run '^TestStraddleWitness$' -v ./c03/
 package c03
 
@@ -315,6 +320,109 @@ func TestStraddleAnswerWitness(t *testing.T) {
 	_ = st.Stop(ctx)
 	if state.Error != "" {
 		t.Logf("WITNESS: the getter never failed and served exactly the requested range, yet the sync to %d ended with %q and %d stays pending", state.ToHeight, state.Error, lh.Height())
+	} else {
+		t.Logf("not reproduced on this tree")
+	}
+}
+
+// A lost update on the shim's head pointer: syncStore.Append loads the head, checks the list against it and
+// stores the new head later, with nothing in between that excludes another Append (the sync loop and every Head()
+// call's setLocalHead run concurrently; incomingMu serialises gossip calls only).
+//  1. store head 17; a Head() call receives 18 and is preempted inside syncStore.Append after loading the head 17;
+//  2. three further Head() calls learn 18, 19, 20: stored, shim head = store head = 20;
+//  3. the first call goes on: it stores ITS head, 18, into the shim.
+// Result - quiescent, no error, nothing pending: Store head 20, Syncer.Head() = State().Height = 18 (after 20).
+//   go test -tags verif -run '^TestShimRaceWitness$' -v ./c03/
+func TestShimRaceWitness(t *testing.T) {
+	settle := func() { time.Sleep(40 * time.Millisecond) }
+	vhdr.SetPolicy(vhdr.LinkPolicy(0))
+	defer vhdr.SetPolicy(nil)
+	start := time.Now()
+	raw := vhdr.Chain("a", 15, 10, start.UnixNano()-int64(20*time.Millisecond), int64(time.Millisecond), nil)
+	at := func(n uint64) *PH { return &PH{Header: *raw[n-15]} }
+	ctx, cancel := context.WithTimeout(context.Background(), time.Minute)
+	defer cancel()
+	st, err := store.NewStore[*PH](dssync.MutexWrap(datastore.NewMapDatastore()), store.WithWriteBatchSize(1))
+	if err != nil {
+		t.Fatal(err)
+	}
+	if err := st.Start(ctx); err != nil {
+		t.Fatal(err)
+	}
+	if err := st.Append(ctx, at(15), at(16), at(17)); err != nil {
+		t.Fatal(err)
+	}
+	if err := st.Sync(ctx); err != nil {
+		t.Fatal(err)
+	}
+	g := &phGetter{}
+	sub := &phSub{}
+	sy, err := sync.NewSyncer[*PH](g, st, sub,
+		sync.WithSyncFromHash(hex.EncodeToString(at(15).Hash())), sync.WithBlockTime(time.Nanosecond),
+		sync.WithTrustingPeriod(1000*time.Hour), sync.WithPruningWindow(2000*time.Hour))
+	if err != nil {
+		t.Fatal(err)
+	}
+	if err := sy.Start(ctx); err != nil {
+		t.Fatal(err)
+	}
+	settle()
+	storeHead := func() uint64 {
+		h, err := st.Head(ctx)
+		if err != nil {
+			t.Fatalf("store head: %v", err)
+		}
+		return h.Height()
+	}
+	headCall := func(ans *PH) chan error {
+		g.mu.Lock()
+		g.head = ans
+		g.mu.Unlock()
+		res := make(chan error, 1)
+		go func() { _, err := sy.Head(context.Background()); res <- err }()
+		return res
+	}
+	x18 := at(18)
+	x18.g = &hgate{armed: true, parked: make(chan struct{}), rel: make(chan struct{}), fn: "syncStore", nth: 1}
+	rA := headCall(x18)
+	select {
+	case <-x18.g.parked:
+	case <-time.After(2 * time.Second):
+		t.Skip("the Head() call did not park inside syncStore.Append (the code changed): witness not applicable")
+	}
+	for n := uint64(18); n <= 20; n++ {
+		r := headCall(at(n))
+		select {
+		case <-r:
+		case <-time.After(3 * time.Second):
+			t.Fatalf("Head() learning %d did not return", n)
+		}
+		settle()
+	}
+	lh0, err := sy.Head(ctx)
+	if err != nil {
+		t.Fatalf("Head: %v", err)
+	}
+	t.Logf("three Head() calls stored 18..20: Store head = %d, Syncer.Head() = %d", storeHead(), lh0.Height())
+	close(x18.g.rel)
+	select {
+	case <-rA:
+	case <-time.After(3 * time.Second):
+		t.Fatalf("the preempted Head() call did not return")
+	}
+	settle()
+	lh, err := sy.Head(ctx)
+	if err != nil {
+		t.Fatalf("Head: %v", err)
+	}
+	state := sy.State()
+	sh := storeHead()
+	t.Logf("quiescent: Store head = %d, Syncer.Head() = %d, State = {ID %d To %d Height %d Error %q}", sh, lh.Height(), state.ID, state.ToHeight, state.Height, state.Error)
+	_ = sy.Stop(ctx)
+	settle()
+	_ = st.Stop(ctx)
+	if lh.Height() < sh {
+		t.Logf("WITNESS: the shim's head went back from %d to %d: Syncer.Head() and State().Height are below the Store head %d with nothing pending", lh0.Height(), lh.Height(), sh)
 	} else {
 		t.Logf("not reproduced on this tree")
 	}
